@@ -147,3 +147,147 @@ Print Assumptions C02a_example_vchange_duplicate_collapses.
 
 (** the hypotheses of the corruption theorem are satisfiable at the real block size: two records,
     byte 8 (payload of the first fragment) overwritten *)
+
+
+(** * The persistence protocol ([Proto.v]) and recovery ([Recover.v]): crash safety of every run,
+    every crash point, every tear length (side conditions [run_ok] / [run_okP], [crash_k] in
+    [proofs/ProtoSteps.v], [proofs/ProtoInstall.v]; non-vacuity in [proofs/ProtoExamples.v]) *)
+From Coq Require Import List NArith Bool Arith.
+From RainVerif.model Require Import Table TableSpec Gc Recover Proto.
+From RainVerif.proofs Require Import ContentsProofs ProtoDurable ProtoSteps ProtoOpen ProtoInstall ProtoProofs.
+
+Theorem C02_current_roundtrip : forall n,
+  n < 18446744073709551616 -> parse_current (current_contents n) = Some n.
+Proof. exact current_roundtrip. Qed.
+Print Assumptions C02_current_roundtrip.
+
+(** * Recovery as a relation: what [recover_image] returns on a directory described by a durable view *)
+
+Theorem C02_recover_durable : forall img dv, Durable img dv -> recover_image img = inl (rc_of img dv).
+Proof. exact recover_durable. Qed.
+Print Assumptions C02_recover_durable.
+
+Theorem C02_recovered_seq_ge : forall img rc,
+  recover_image img = inl rc ->
+  forall w b, In w (rc_wals rc) -> In b (wr_batches w) -> batch_last_seq b <= rc_seq rc.
+Proof. exact recovered_seq_ge. Qed.
+Print Assumptions C02_recovered_seq_ge.
+
+(** * M3: a single session from the empty directory, every crash point *)
+
+Theorem C02_crash_safe_single_session : forall o rest,
+  no_open_no_install rest = true ->
+  run_ok prun_init (QOpen o :: rest) = true -> pr_failed (fst (p_run prun_init (QOpen o :: rest))) = false ->
+  forall n torn, (n <= length (snd (p_run prun_init (QOpen o :: rest))))%nat ->
+  crash_ok (crash_image empty_image (snd (p_run prun_init (QOpen o :: rest))) n torn)
+           (firstn (crash_k prun_init (QOpen o :: rest) n torn) (acked_batches 0 (QOpen o :: rest))).
+Proof. exact crash_safe_single_session. Qed.
+Print Assumptions C02_crash_safe_single_session.
+
+(** * M4: any number of sessions (close and reopen, any oracle) *)
+
+Theorem C02_crash_safe : forall ops,
+  run_ok prun_init ops = true -> pr_failed (fst (p_run prun_init ops)) = false ->
+  forall n torn, (n <= length (snd (p_run prun_init ops)))%nat ->
+  crash_ok (crash_image empty_image (snd (p_run prun_init ops)) n torn)
+           (firstn (crash_k prun_init ops n torn) (acked_batches 0 ops)).
+Proof. exact crash_safe. Qed.
+Print Assumptions C02_crash_safe.
+
+(** * M5: installs included, under [install_okb] and [install_preserves] at every install *)
+
+Theorem C02_crash_safe_with_installs : forall ops,
+  run_okP prun_init ops -> pr_failed (fst (p_run prun_init ops)) = false ->
+  forall n torn, (n <= length (snd (p_run prun_init ops)))%nat ->
+  crash_ok (crash_image empty_image (snd (p_run prun_init ops)) n torn)
+           (firstn (crash_k prun_init ops n torn) (acked_batches 0 ops)).
+Proof. exact crash_safe_P. Qed.
+Print Assumptions C02_crash_safe_with_installs.
+
+(** from any reachable state, not only the empty directory *)
+Theorem C02_run_crash_safe : forall ops s acked,
+  RInv s acked -> run_okP s ops -> pr_failed (fst (p_run s ops)) = false ->
+  forall n torn, (n <= length (snd (p_run s ops)))%nat ->
+  crash_ok (crash_image (pr_img s) (snd (p_run s ops)) n torn)
+           (acked ++ firstn (crash_k s ops n torn) (acked_batches (nops acked) ops)).
+Proof. exact run_crash_safe_P. Qed.
+Print Assumptions C02_run_crash_safe.
+
+(** nothing cut off: everything acknowledged is recovered *)
+Theorem C02_crash_k_full : forall ops,
+  run_okP prun_init ops -> pr_failed (fst (p_run prun_init ops)) = false ->
+  crash_k prun_init ops (length (snd (p_run prun_init ops))) None = length (acked_batches 0 ops).
+Proof. exact crash_k_full_P. Qed.
+Print Assumptions C02_crash_k_full.
+
+Theorem C02_clean_shutdown_recovers_all : forall ops,
+  run_okP prun_init ops -> pr_failed (fst (p_run prun_init ops)) = false ->
+  crash_ok (pr_img (fst (p_run prun_init ops))) (acked_batches 0 ops).
+Proof. exact clean_shutdown_recovers_all_P. Qed.
+Print Assumptions C02_clean_shutdown_recovers_all.
+
+(** the database still opens after every crash *)
+Theorem C02_crash_recovery_succeeds : forall ops,
+  run_okP prun_init ops -> pr_failed (fst (p_run prun_init ops)) = false ->
+  forall n torn, (n <= length (snd (p_run prun_init ops)))%nat ->
+  let img := crash_image empty_image (snd (p_run prun_init ops)) n torn in
+  i_current img = None \/
+  exists rc, recover_image img = inl rc /\
+     rec_contents img rc = replay [] (firstn (crash_k prun_init ops n torn) (acked_batches 0 ops)) /\
+     rc_seq rc = nops (firstn (crash_k prun_init ops n torn) (acked_batches 0 ops)).
+Proof. exact crash_recovery_succeeds_P. Qed.
+Print Assumptions C02_crash_recovery_succeeds.
+
+(** * The steps, one by one *)
+
+Theorem C02_write_step : forall d acked b,
+  InvE d acked -> write_okb d b = true ->
+  let batch := (pd_seq d + 1, b) in
+  let op := FsAppend (FWal (pd_wal d)) (fst (log_append (pd_wal_boff d) (batch_bytes batch))) in
+  snd (p_write d b) = [op] /\
+  pd_img (fst (p_write d b)) = apply_fsop (pd_img d) op /\
+  pd_seq d = nops acked /\
+  InvE (fst (p_write d b)) (acked ++ [batch]) /\
+  Good (pd_img d) acked /\
+  forall t, Good (apply_fsop (pd_img d) (FsAppend (FWal (pd_wal d)) (firstn t (fst (log_append (pd_wal_boff d) (batch_bytes batch))))))
+                 (if (length (fst (log_append (pd_wal_boff d) (batch_bytes batch))) <=? t)%nat then acked ++ [batch] else acked).
+Proof. exact write_step. Qed.
+Print Assumptions C02_write_step.
+
+Theorem C02_rotate_step : forall d acked,
+  InvE d acked -> (pd_imm d <> None \/ rotate_okb d = true) ->
+  pd_img (fst (p_rotate d)) = apply_fsops (pd_img d) (snd (p_rotate d)) /\
+  InvE (fst (p_rotate d)) acked /\
+  all_crash (fun i => Good i acked) (pd_img d) (snd (p_rotate d)).
+Proof. exact rotate_step. Qed.
+Print Assumptions C02_rotate_step.
+
+Theorem C02_flush_step : forall d acked level size seq d' ops,
+  InvE d acked -> (pd_imm d = None \/ flush_okb d level size seq = true) ->
+  p_flush d level size seq = Some (d', ops) ->
+  pd_img d' = apply_fsops (pd_img d) ops /\
+  InvE d' acked /\
+  all_crash (fun i => Good i acked) (pd_img d) ops.
+Proof. exact flush_step. Qed.
+Print Assumptions C02_flush_step.
+
+Theorem C02_open_step : forall o img acked d' ops,
+  Closed img acked -> open_okb o img = true ->
+  p_open o img = Some (d', ops) ->
+  pd_img d' = apply_fsops img ops /\
+  InvE d' acked /\
+  all_crash (fun i => crash_ok i acked) img ops.
+Proof. exact open_step. Qed.
+Print Assumptions C02_open_step.
+
+Theorem C02_install_step : forall d acked deleted added pointers seq d' ops,
+  InvE d acked ->
+  install_okb d deleted added pointers seq = true ->
+  install_preserves d deleted added pointers seq ->
+  p_install d deleted added pointers seq = Some (d', ops) ->
+  pd_img d' = apply_fsops (pd_img d) ops /\
+  InvE d' acked /\
+  all_crash (fun i => Good i acked) (pd_img d) ops.
+Proof. exact install_step. Qed.
+Print Assumptions C02_install_step.
+
